@@ -518,7 +518,7 @@ package gmars
 //@   panics [C04][C13]
 //@   requires pqInv(q)
 //@   modifies nothing
-//@   ensures [C13] len(result) == q.length && (forall i :: 0 <= i && i < q.length ==> result[i] == qAt(q, i))
+//@   ensures [C13][C02][C01] len(result) == q.length && (forall i :: 0 <= i && i < q.length ==> result[i] == qAt(q, i))
 //@   loop 1
 //@     invariant i <= q.length && len(dat) == q.length && fresh(arr(dat)) && off(dat) == 0
 //@     invariant forall k :: 0 <= k && k < i ==> dat[k] == qAt(q, k)
@@ -661,6 +661,9 @@ package gmars
 //@     invariant [C02] forall j :: i <= j && j < s.warriorCount ==> s.popW[j] == old(s.popW[j]) && s.warriors[j].state == old(s.warriors[j].state)
 //@     decreases s.warriorCount - i
 
+// a battle driven by Run stops exactly when it is decided: out of cycles, the lone warrior dead, or at most one
+// of several warriors left
+//@ pure decided(s *reportSim) = s.cycleCount >= s.maxCycles || (s.warriorCount == 1 && s.warriorLivingCount < 1) || (s.warriorCount > 1 && s.warriorLivingCount <= 1)
 //@ func (*reportSim).Run
 //@   panics [C04][C13]
 //@   requires simInv(s)
@@ -669,11 +672,15 @@ package gmars
 //@   ensures [C04] simInv(s)
 //@   ensures [C02][C13] s.warriorCount == 0 ==> len(result) == 0
 //@   ensures [C02][C13] s.warriorCount > 0 ==> len(result) == s.warriorCount && (forall j :: 0 <= j && j < s.warriorCount ==> result[j] == (s.warriors[j].state == WarriorAlive))
+//@   ensures [C02] s.warriorCount > 0 ==> decided(s)
 //@   loop 1
 //@     invariant simInv(s) && nWarriors == s.warriorCount && nWarriors >= 1
 //@     decreases [C13] s.maxCycles - s.cycleCount
+//@     exit [C02] decided(s)
+//@     exit header [C02] decided(s)
 //@   loop 2
 //@     invariant simInv(s) && nWarriors == s.warriorCount && len(result) == nWarriors && fresh(arr(result)) && off(result) == 0
+//@     invariant [C02] decided(s)
 //@     invariant 0 - 1 <= rangeindex && rangeindex < len(s.warriors)
 //@     invariant forall j :: 0 <= j && j <= rangeindex ==> result[j] == (s.warriors[j].state == WarriorAlive)
 //@     decreases len(s.warriors) - rangeindex
@@ -928,8 +935,36 @@ package gmars
 // compile.go: the assembler back end (C06, C03, C07)
 
 // functions of the symbol / expression machinery, not (yet) verified: assumed contracts
-//@ trusted (*compiler).expandExpression
+// expandExpression: the substitution fixpoint. Each round replaces every symbol token by its EQU value and
+// every label token by the signed distance to the referring line (Go remainder by the core size: negative
+// for backward references, printed as "-" followed by the magnitude); other tokens are copied.
+//@ pure trem(v int, m int) = ite(v >= 0, v % m, 0 - ((0 - v) % m))
+//@ pure decStr(v int) = sprintf("%d", zeros()[0 := box_int(v)], 1)
+// line numbers are small (at most the number of source lines)
+//@ pure lineNo(v int) = 0 - 4294967296 <= v && v <= 4294967296
+//@ pure negLab(c *compiler, tok token, line int) = tok.typ == tokText && !has(c.values, tok.val) && has(c.labels, tok.val) && lineNo(c.labels[tok.val]) && lineNo(line) && trem(c.labels[tok.val] - line, c.m) < 0
+//@ func (*compiler).expandExpression
+//@   panics [C05][C07][C03]
+//@   requires c != nil && c.m >= 1 && c.m <= 4294967296
 //@   modifies nothing
+// the rounds are bounded by the size of the symbol table (F9/F10: without the bound a cyclic table met before
+// the cycle check, or a symbol with an empty value, kept the loop running forever)
+//@   loop 1
+//@     invariant 0 <= rounds && rounds <= limit + 1 && limit >= 2
+//@     decreases [C05] limit + 2 - rounds
+//@   loop 2
+//@     invariant 0 - 1 <= rangeindex && rangeindex < len(input) && fresh(arr(output))
+//@     invariant 0 <= rounds && rounds <= limit && limit >= 2
+//@     iteration [C03][C07] tok.typ != tokText ==> len(output) == iter(len(output)) + 1 && output[len(output) - 1] == tok
+//@     iteration [C03][C07] tok.typ == tokText && !has(c.values, tok.val) && has(c.labels, tok.val) && lineNo(c.labels[tok.val]) && lineNo(line) && trem(c.labels[tok.val] - line, c.m) >= 0 ==>
+//@        len(output) == iter(len(output)) + 1 && output[len(output) - 1].typ == tokNumber && output[len(output) - 1].val == decStr(trem(c.labels[tok.val] - line, c.m))
+//@     iteration [C03][C07] negLab(c, tok, line) ==> len(output) == iter(len(output)) + 2
+//@     iteration [C03][C07] negLab(c, tok, line) ==> output[len(output) - 2].typ == tokSymbol && output[len(output) - 2].val == "-"
+//@     iteration [C03][C07] negLab(c, tok, line) ==> output[len(output) - 1].typ == tokNumber
+//@     iteration [C03][C07] negLab(c, tok, line) ==> output[len(output) - 1].val == decStr(0 - trem(c.labels[tok.val] - line, c.m))
+//@     iteration [C03][C07] tok.typ == tokText && has(c.values, tok.val) ==> len(output) == iter(len(output)) + len(c.values[tok.val])
+//@     iteration [C03][C07] tok.typ == tokText && has(c.values, tok.val) ==> (forall j :: 0 <= j && j < len(c.values[tok.val]) ==> output[iter(len(output)) + j] == c.values[tok.val][j])
+//@     decreases len(input) - rangeindex
 // exprVal: the value go/types.Eval gives to the token sequence (uninterpreted)
 //@ uf exprVal(toks Slice) int
 // evaluateExpression: its body is verified (identifiers are rejected before the text reaches the evaluator, the
@@ -960,7 +995,7 @@ package gmars
 //@   modifies c.values, c.labels, c.startExpr
 //@ func (*compiler).evaluateAssertions
 //@   panics [C05][C07]
-//@   requires c != nil
+//@   requires c != nil && c.m >= 1 && c.m <= 4294967296
 //@   modifies nothing
 //@   loop 1
 //@     invariant 0 - 1 <= rangeindex && rangeindex < len(c.lines)
@@ -1011,6 +1046,147 @@ package gmars
 //@ trusted newLexer
 //@   modifies nothing
 //@   ensures fresh(result)
+
+// ---------------------------------------------------------------------------
+// lex.go: the lexer's state machine (C05). Every state function either stops or hands over to a state with
+// a smaller measure (twice the unread input plus a weight of the state), so `run` terminates; and the token
+// stream it sends ends with exactly one terminal token (EOF or error), which is the last thing sent -- the
+// consumer (Tokens) stops reading at the first terminal token, so a send after it would block forever.
+//@ uf isSpaceR(r int) Bool
+//@ uf isLetterR(r int) Bool
+//@ uf isDigitR(r int) Bool
+//@ extern unicode.IsSpace
+//@   modifies nothing
+//@   ensures result == isSpaceR(r)
+//@ extern unicode.IsLetter
+//@   modifies nothing
+//@   ensures result == isLetterR(r)
+//@ extern unicode.IsDigit
+//@   modifies nothing
+//@   ensures result == isDigitR(r)
+// ReadRune consumes at least one byte when it succeeds; input is finite
+//@ extern (*bufio.Reader).ReadRune
+//@   requires b != nil
+//@   modifies ghost b.left, ghost b.pending
+//@   ensures b.left >= 0 && b.left <= old(b.left) && (err == nil ==> b.left < old(b.left))
+//@ pure termTok(t token) = t.typ == tokEOF || t.typ == tokError
+//@ pure lexOK(l *lexer) = l != nil && l.reader != nil && l.reader.left >= 0
+// the tokens sent since position n0 are all non-terminal / end with the only terminal one
+//@ pure openFrom(l *lexer, n0 int) = sent(l.tokens) >= n0 && (forall k :: n0 <= k && k < sent(l.tokens) ==> !termTok(sentAt(l.tokens, k)))
+//@ pure endedFrom(l *lexer, n0 int) = sent(l.tokens) > n0 && termTok(lastSent(l.tokens)) && (forall k :: n0 <= k && k < sent(l.tokens) - 1 ==> !termTok(sentAt(l.tokens, k)))
+//@ pure lexW(st int) = ite(st == lexInput, 1, ite(st == lexText || st == lexNumber || st == lexComment, 0, 2))
+//@ pure lexMu(l *lexer, st int) = 2 * l.reader.left + lexW(st)
+//@ pure lexState(st int) = st == lexInput || st == lexText || st == lexNumber || st == lexComment || st == lexLt || st == lexGt || st == lexEquals || st == lexPipe || st == lexAnd
+// what a state may rely on about the pending rune when it is entered
+//@ pure lexPre(l *lexer, st int) = (st == lexText ==> isLetterR(l.nextRune) || l.nextRune == 95) && (st == lexNumber ==> isDigitR(l.nextRune)) && (st == lexComment ==> l.nextRune == 59)
+// the common contract of the state functions
+//@ pure lexStep(l *lexer, me int, res int, n0 int, mu0 int) = (res == 0 ==> endedFrom(l, n0)) && (res != 0 ==> openFrom(l, n0) && lexState(res) && lexPre(l, res) && lexMu(l, res) < mu0)
+
+//@ func (*lexer).next
+//@   panics [C05]
+//@   requires lexOK(l)
+//@   modifies l.nextRune, l.atEOF, ghost l.reader.left, ghost l.reader.pending
+//@   ensures [C05] lexOK(l) && l.reader.left <= old(l.reader.left)
+//@   ensures [C05] !result.1 ==> l.reader.left < old(l.reader.left) && result.0 == old(l.nextRune)
+//@   ensures [C05] result.1 ==> l.nextRune == old(l.nextRune)
+
+//@ func (*lexer).consume
+//@   panics [C05]
+//@   requires lexOK(l) && nextState != 0
+//@   modifies l.nextRune, l.atEOF, ghost l.reader.left, ghost l.reader.pending, chan l.tokens
+//@   ensures [C05] lexOK(l) && l.reader.left <= old(l.reader.left)
+//@   ensures [C05] result == 0 ==> endedFrom(l, old(sent(l.tokens)))
+//@   ensures [C05] result != 0 ==> result == nextState && sent(l.tokens) == old(sent(l.tokens)) && l.reader.left < old(l.reader.left)
+
+//@ func (*lexer).emitConsume
+//@   panics [C05]
+//@   requires lexOK(l) && nextState != 0 && !termTok(tok)
+//@   modifies l.nextRune, l.atEOF, ghost l.reader.left, ghost l.reader.pending, chan l.tokens
+//@   ensures [C05] lexOK(l) && l.reader.left <= old(l.reader.left)
+//@   ensures [C05] result == 0 ==> endedFrom(l, old(sent(l.tokens)))
+//@   ensures [C05] result != 0 ==> result == nextState && openFrom(l, old(sent(l.tokens))) && l.reader.left < old(l.reader.left)
+
+//@ func lexInput
+//@   panics [C05]
+//@   requires lexOK(l)
+//@   modifies l.nextRune, l.atEOF, ghost l.reader.left, ghost l.reader.pending, chan l.tokens
+//@   ensures [C05] lexOK(l) && lexStep(l, lexInput, result, old(sent(l.tokens)), old(lexMu(l, lexInput)))
+//@   loop 1
+//@     invariant lexOK(l) && openFrom(l, old(sent(l.tokens)))
+//@     invariant l.reader.left < old(l.reader.left) || (l.reader.left == old(l.reader.left) && l.nextRune == old(l.nextRune))
+//@     decreases [C05] l.reader.left
+
+//@ func lexText
+//@   panics [C05]
+//@   requires lexOK(l) && lexPre(l, lexText)
+//@   modifies l.nextRune, l.atEOF, ghost l.reader.left, ghost l.reader.pending, chan l.tokens
+//@   ensures [C05] lexOK(l) && lexStep(l, lexText, result, old(sent(l.tokens)), old(lexMu(l, lexText)))
+//@   loop 1
+//@     invariant lexOK(l) && sent(l.tokens) == old(sent(l.tokens)) && fresh(arr(runeBuf))
+//@     invariant l.reader.left < old(l.reader.left) || (l.reader.left == old(l.reader.left) && l.nextRune == old(l.nextRune))
+//@     decreases [C05] l.reader.left
+
+//@ func lexNumber
+//@   panics [C05]
+//@   requires lexOK(l) && lexPre(l, lexNumber)
+//@   modifies l.nextRune, l.atEOF, ghost l.reader.left, ghost l.reader.pending, chan l.tokens
+//@   ensures [C05] lexOK(l) && lexStep(l, lexNumber, result, old(sent(l.tokens)), old(lexMu(l, lexNumber)))
+//@   loop 1
+//@     invariant lexOK(l) && sent(l.tokens) == old(sent(l.tokens))
+//@     invariant l.reader.left < old(l.reader.left) || (l.reader.left == old(l.reader.left) && l.nextRune == old(l.nextRune))
+//@     decreases [C05] l.reader.left
+//@   loop 2
+//@     invariant lexOK(l) && sent(l.tokens) == old(sent(l.tokens)) && fresh(arr(numberBuf))
+//@     invariant l.reader.left < old(l.reader.left) || (l.reader.left == old(l.reader.left) && l.nextRune == old(l.nextRune))
+//@     decreases [C05] l.reader.left
+
+//@ func lexComment
+//@   panics [C05]
+//@   requires lexOK(l) && lexPre(l, lexComment)
+//@   modifies l.nextRune, l.atEOF, ghost l.reader.left, ghost l.reader.pending, chan l.tokens
+//@   ensures [C05] lexOK(l) && lexStep(l, lexComment, result, old(sent(l.tokens)), old(lexMu(l, lexComment)))
+//@   loop 1
+//@     invariant lexOK(l) && sent(l.tokens) == old(sent(l.tokens)) && fresh(arr(commentBuf))
+//@     invariant l.reader.left < old(l.reader.left) || (l.reader.left == old(l.reader.left) && l.nextRune == old(l.nextRune))
+//@     decreases [C05] l.reader.left
+
+//@ func lexEquals
+//@   panics [C05]
+//@   requires lexOK(l)
+//@   modifies l.nextRune, l.atEOF, ghost l.reader.left, ghost l.reader.pending, chan l.tokens
+//@   ensures [C05] lexOK(l) && lexStep(l, lexEquals, result, old(sent(l.tokens)), old(lexMu(l, lexEquals)))
+//@ func lexPipe
+//@   panics [C05]
+//@   requires lexOK(l)
+//@   modifies l.nextRune, l.atEOF, ghost l.reader.left, ghost l.reader.pending, chan l.tokens
+//@   ensures [C05] lexOK(l) && lexStep(l, lexPipe, result, old(sent(l.tokens)), old(lexMu(l, lexPipe)))
+//@ func lexAnd
+//@   panics [C05]
+//@   requires lexOK(l)
+//@   modifies l.nextRune, l.atEOF, ghost l.reader.left, ghost l.reader.pending, chan l.tokens
+//@   ensures [C05] lexOK(l) && lexStep(l, lexAnd, result, old(sent(l.tokens)), old(lexMu(l, lexAnd)))
+//@ func lexGt
+//@   panics [C05]
+//@   requires lexOK(l)
+//@   modifies l.nextRune, l.atEOF, ghost l.reader.left, ghost l.reader.pending, chan l.tokens
+//@   ensures [C05] lexOK(l) && lexStep(l, lexGt, result, old(sent(l.tokens)), old(lexMu(l, lexGt)))
+//@ func lexLt
+//@   panics [C05]
+//@   requires lexOK(l)
+//@   modifies l.nextRune, l.atEOF, ghost l.reader.left, ghost l.reader.pending, chan l.tokens
+//@   ensures [C05] lexOK(l) && lexStep(l, lexLt, result, old(sent(l.tokens)), old(lexMu(l, lexLt)))
+
+// the driver: runs the states until one stops; the stream then ends with its only terminal token
+//@ func (*lexer).run
+//@   panics [C05]
+//@   requires lexOK(l)
+//@   modifies l.nextRune, l.atEOF, l.closed, ghost l.reader.left, ghost l.reader.pending, chan l.tokens
+//@   ensures [C05] endedFrom(l, old(sent(l.tokens)))
+//@   loop 1
+//@     invariant lexOK(l)
+//@     invariant [C05] state != 0 ==> openFrom(l, old(sent(l.tokens))) && lexState(state) && lexPre(l, state)
+//@     invariant [C05] state == 0 ==> endedFrom(l, old(sent(l.tokens)))
+//@     decreases [C05] ite(state == 0, 0, 1 + lexMu(l, state))
 //@ trusted (*lexer).Tokens
 //@   modifies nothing
 //@ trusted newBufTokenReader
@@ -1055,10 +1231,10 @@ package gmars
 //@   requires c != nil && c.values != nil
 //@   modifies c.values[*]
 // the predefined names are bound to the decimal renderings of the configuration's values
-//@   ensures [C07] has(c.values, "CORESIZE") && decimalTok(c.values["CORESIZE"], c.config.CoreSize)
-//@   ensures [C07] has(c.values, "MAXLENGTH") && decimalTok(c.values["MAXLENGTH"], c.config.Length)
-//@   ensures [C07] has(c.values, "MAXPROCESSES") && decimalTok(c.values["MAXPROCESSES"], c.config.Processes)
-//@   ensures [C07] has(c.values, "MINDISTANCE") && decimalTok(c.values["MINDISTANCE"], c.config.Distance)
+//@   ensures [C07][C03] has(c.values, "CORESIZE") && decimalTok(c.values["CORESIZE"], c.config.CoreSize)
+//@   ensures [C07][C03] has(c.values, "MAXLENGTH") && decimalTok(c.values["MAXLENGTH"], c.config.Length)
+//@   ensures [C07][C03] has(c.values, "MAXPROCESSES") && decimalTok(c.values["MAXPROCESSES"], c.config.Processes)
+//@   ensures [C07][C03] has(c.values, "MINDISTANCE") && decimalTok(c.values["MINDISTANCE"], c.config.Distance)
 
 // sign-run folding: after an operator a run of unary signs is replaced by one "-" iff the number of minus
 // signs in the run is odd. The inner loop's flag must therefore toggle on every "-" (a parity), which is
@@ -1424,10 +1600,12 @@ package gmars
 //@   ensures result.1 == nil ==> len(result.0) >= 1
 //@ func (*compiler).evaluateAssertion
 //@   panics [C05][C07]
-//@   requires c != nil
+//@   requires c != nil && c.m >= 1 && c.m <= 4294967296
 //@   modifies nothing
-// a program is accepted only if the assert condition does not evaluate to zero
+// a program is accepted only if the assert condition does not evaluate to zero, and rejected for this reason
+// only if it does
 //@   ensures [C07] result == nil ==> exprVal(exprTokens) != 0
+//@   ensures [C07] result != nil && err == nil ==> exprVal == 0
 //@ trusted ExpandAndEvaluate
 //@   modifies nothing
 //@   ensures result.1 == nil ==> 0 - 2147483648 <= result.0 && result.0 <= 2147483647
